@@ -389,6 +389,5 @@ int main(int argc, char ** argv) {
     mc_stat("codes_pushed", ncodes);
     mc_stat("max_depth", (unsigned long long) maxdepth);
     mc_executed += transitions;
-    if (!fix) printf("CAP a BFS run did not reach its fix-point\n");
     return mc_finish();
 }
